@@ -81,6 +81,8 @@ class Assembler:
                     continue
                 if 'path' in it and re.search(r'(^|::)\s*fn \w+$', it['path']) and (it.get('ensures') or it.get('requires')) and not it.get('assumed'):
                     it = {'file': it['file'], 'path': it['path'], 'contract_from': inc['unit']}
+                if inc.get('module'):
+                    it['_module'] = inc['module']
                 inc_items.append(it)
         if inc_items:
             self.u['item'] = inc_items + self.u.get('item', [])
@@ -526,7 +528,18 @@ class Assembler:
             parts.append('// ---- unit prelude (spec functions, lemmas, assumed externals)\n')
             parts.append(u['prelude_text'] + '\n')
         cur_impl = None
+        cur_mod = None
         for idx, spec in enumerate(u.get('item', [])):
+            want_mod = spec.get('_module')
+            if want_mod != cur_mod:
+                if cur_impl is not None:
+                    parts.append('}\n')
+                    cur_impl = None
+                if cur_mod is not None:
+                    parts.append('} // mod %s\n' % cur_mod)
+                if want_mod is not None:
+                    parts.append('pub mod %s {\n#[allow(unused_imports)] use super::*;\n' % want_mod)
+                cur_mod = want_mod
             s = self.src(spec['file'])
             if 'spec_text' in spec:
                 path = spec['in'] + '::fn __spec__'
@@ -647,6 +660,8 @@ class Assembler:
             parts.append('// @endfn\n')
         if cur_impl is not None:
             parts.append('}\n')
+        if cur_mod is not None:
+            parts.append('} // mod %s\n' % cur_mod)
         if u.get('epilogue_text'):
             parts.append(u['epilogue_text'] + '\n')
         parts.append('} // verus!\n')
